@@ -21,6 +21,8 @@ def doc_s(key_s, maxlen=8, boosts=False):
     }
     if boosts:
         d["boost"] = st.sampled_from([1.0, 1.0, 0.5, 2.0, 3.5])
+        # a boost for the text field alone (_t_boost=...): it replaces the document boost for that field only
+        d["tboost"] = st.sampled_from([None, None, None, 4.0, 0.25])
     return st.fixed_dictionaries(d)
 
 
